@@ -1,7 +1,8 @@
 (** non-vacuity for C16: a concrete data set with three edges sharing one timestamp, a getter that
     meets [honours], arguments that meet [args_ok], and non-trivial pages / walks *)
 From Coq Require Import List NArith ZArith Bool.
-From ApiFu Require Import Base.Sexp TimeConn.TimeModel TimeConn.TimeSpec TimeConn.TimeProofs.
+From ApiFu Require Import Base.Sexp TimeConn.TimeModel TimeConn.TimeSpec TimeConn.TimeProofs
+  TimeConn.TimeErrModel TimeConn.TimeErrProofs.
 Import ListNotations.
 Open Scope Z_scope.
 
@@ -70,3 +71,63 @@ Example walk_fuel_tight :
   walk_fwd current (g_exact E20) 6 all_sync 1 None None CAbsent
   = WDone [(100, b_a); (100, b_b); (100, b_c); (200, b_a); (200, b_b); (300, b_a)].
 Proof. vm_compute. split; reflexivity. Qed.
+
+(** ** Stage B: failing getter calls, totalCount *)
+
+(** three range queries (after and before cursors on different timestamps) *)
+Definition a_three : args :=
+  {| a_first := Some 10; a_last := None; a_after := CCursor (100, b_a); a_before := CCursor (300, b_a);
+     a_from := None; a_to := None |}.
+Definition px (promise : bool) (e : gerr) : xpres :=
+  {| xp := {| by_promise := promise; nil_when_empty := false |}; xerr := e |}.
+Definition s_both : sel := {| want_info := true; want_total := true |}.
+
+(** call 0 through a promise that fails (error 0), call 1 synchronously and fine, call 2 fails
+    synchronously (error 2): the synchronous error wins although the failing promise was obtained
+    first, all three queries were issued, ResolveTotalCount is not called, no page *)
+Example sync_error_beats_earlier_promise_error :
+  let ps := fun i => match i with O => px true (Err 0) | 1%nat => px false NoErr | _ => px false (Err 2) end in
+  winner ps (queries_of a_three) = Some (2, 3%nat) /\
+  xconn current true (g_exact E20) ps s_both (TCVal 6) a_three
+  = (XFieldError [EGetter 2], [mkq 100 100 0; mkq 300 300 0; mkq 101 299 11], Some O).
+Proof. vm_compute. split; reflexivity. Qed.
+
+(** call 1 fails synchronously: the middle query is never issued *)
+Example sync_error_cuts_the_loop :
+  let ps := fun i => match i with 1%nat => px false (Err 1) | _ => px true NoErr end in
+  xconn current true (g_exact E20) ps s_both (TCVal 6) a_three
+  = (XFieldError [EGetter 1], [mkq 100 100 0; mkq 300 300 0], Some O).
+Proof. vm_compute. reflexivity. Qed.
+
+(** two failing promises: the first in issue order wins *)
+Example first_promise_error_wins :
+  let ps := fun i => match i with O => px false NoErr | 1%nat => px true (Err 1) | _ => px true (Err 2) end in
+  fst (fst (xconn current true (g_exact E20) ps s_both (TCVal 6) a_three)) = XFieldError [EGetter 1].
+Proof. vm_compute. reflexivity. Qed.
+
+(** a mixed hand-over without failures: synchronous results and promised results both arrive;
+    totalCount is the application's answer *)
+Example mixed_handover_with_total :
+  let ps := fun i => match i with 1%nat => px true NoErr | _ => px false TypedNilErr end in
+  fst (fst (xconn current true (g_exact E20) ps s_both (TCVal 6) a_three))
+  = XPage [(100, b_b); (100, b_c); (200, b_a); (200, b_b)]
+      (Some {| has_prev := true; has_next := false; start_c := Some (100, b_b); end_c := Some (200, b_b) |})
+      (Some 6)
+  /\ TimeRef E20 a_three = [(100, b_b); (100, b_c); (200, b_a); (200, b_b)].
+Proof. vm_compute. split; reflexivity. Qed.
+
+(** a failing totalCount nulls the field; first = 0 without pageInfo fetches nothing *)
+Example total_count_error_and_lazy_path :
+  fst (fst (xconn current true (g_exact E20) (fun _ => px false NoErr) s_both (TCErr 7) a_three)) = XFieldError [ETotal 7]
+  /\ xconn current true (g_exact E20) (fun _ => px false (Err 9)) {| want_info := false; want_total := true |} (TCVal 6)
+       {| a_first := Some 0; a_last := None; a_after := CAbsent; a_before := CAbsent; a_from := None; a_to := None |}
+     = (XPage [] None (Some 6), [], Some 1%nat).
+Proof. vm_compute. split; reflexivity. Qed.
+
+(** promises resolving in the order 2, 0, 1: the error of promise 1 (the first failing one in
+    issue order), although promise 2 failed earlier in time *)
+Example join_out_of_order :
+  join_sched [PVal (GSlice [(100, b_a)]); PErr 1; PErr 2] [2%nat; 0%nat; 1%nat] = JErr 1
+  /\ join_sched [PVal (GSlice [(100, b_a)]); PErr 1; PErr 2] [2%nat; 0%nat] = JWait 1 [GSlice [(100, b_a)]]
+  /\ join_sched [PVal (GSlice [(100, b_a)]); PVal GNil] [1%nat; 0%nat] = JDone [GSlice [(100, b_a)]; GNil].
+Proof. vm_compute. repeat split. Qed.
